@@ -128,15 +128,15 @@ def osize : OExpr → Nat
 
 /-- `generate_expr` (`atomicGen = false`, with `skip` calls) and `generate_expr_atomic`
 (`atomicGen = true`). Fuel = expression size (the flattening makes the recursion non-structural). -/
-def genExpr (env : Env) (ctx : Atomicity) (atomicGen : Bool) : Nat → OExpr → Prog
+def genExprWith (skipP : Prog) (callP : String → Prog) (atomicGen : Bool) : Nat → OExpr → Prog
   | 0, _ => .fail
   | fuel + 1, e =>
-    let g := genExpr env ctx atomicGen fuel
+    let g := genExprWith skipP callP atomicGen fuel
     match e with
     | .str s => .matchString s
     | .insens s => .matchInsensitive s
     | .range a b => .matchRange a b
-    | .ident n => callRule env n ctx
+    | .ident n => callP n
     | .peekSlice a b => .stackMatchPeekSlice a b .bottomToTop
     | .posPred e => .lookahead true (g e)
     | .negPred e => .lookahead false (g e)
@@ -146,7 +146,7 @@ def genExpr (env : Env) (ctx : Atomicity) (atomicGen : Bool) : Nat → OExpr →
       | [] => .fail
       | head :: tail =>
         .sequence (tail.foldl (fun acc t =>
-          if atomicGen then .andThen acc (g t) else .andThen (.andThen acc (skipProg env ctx)) (g t)) (g head))
+          if atomicGen then .andThen acc (g t) else .andThen (.andThen acc skipP) (g t)) (g head))
     | .choice a b =>
       match choiceItems (.choice a b) with
       | [] => .fail
@@ -154,10 +154,10 @@ def genExpr (env : Env) (ctx : Atomicity) (atomicGen : Bool) : Nat → OExpr →
     | .opt e => .optional (g e)
     | .rep e =>
       if atomicGen then .repeat_ (g e)
-      else .sequence (.optional (.andThen (g e) (.repeat_ (.sequence (.andThen (skipProg env ctx) (g e))))))
+      else .sequence (.optional (.andThen (g e) (.repeat_ (.sequence (.andThen skipP (g e))))))
     | .repOnce e =>
       if atomicGen then .sequence (.andThen (g e) (.repeat_ (.sequence (g e))))
-      else .sequence (.andThen (g e) (.repeat_ (.sequence (.andThen (skipProg env ctx) (g e)))))
+      else .sequence (.andThen (g e) (.repeat_ (.sequence (.andThen skipP (g e)))))
     | .skip ss => .skipUntil ss
     | .push e => .stackPush (g e)
     | .pushLiteral s => .stackPushLiteral s
@@ -166,8 +166,12 @@ def genExpr (env : Env) (ctx : Atomicity) (atomicGen : Bool) : Nat → OExpr →
     | .nodeTag (.rep e) t =>
       if atomicGen then .repeat_ (.andThen (g e) (.tagNode t))
       else .sequence (.optional (.andThen (.andThen (g e)
-        (.repeat_ (.sequence (.andThen (skipProg env ctx) (.andThen (g e) (.tagNode t)))))) (.tagNode t)))
+        (.repeat_ (.sequence (.andThen skipP (.andThen (g e) (.tagNode t)))))) (.tagNode t)))
     | .nodeTag e t => .andThen (g e) (.tagNode t)
+
+/-- `generate_expr` / `generate_expr_atomic` with the calling context resolved statically. -/
+def genExpr (env : Env) (ctx : Atomicity) (atomicGen : Bool) (fuel : Nat) (e : OExpr) : Prog :=
+  genExprWith (skipProg env ctx) (fun n => callRule env n ctx) atomicGen fuel e
 
 def isWsCm (name : String) : Bool := name = "WHITESPACE" ∨ name = "COMMENT"
 
@@ -202,6 +206,42 @@ def genRule (env : Env) (id : Nat) (r : ORule) (ctx : Atomicity) : Prog :=
     | .normal => .rule id (body ctx)
     | .silent => body ctx
     | _ => .atomic .nonAtomic (.rule id (body .nonAtomic))
+
+/-- markers used by the symbolic form: `call skipMarker` stands for `super::hidden::skip(state)`,
+`call (nameMarker + i)` for `self::<names[i]>(state)`. -/
+def skipMarker : Nat := 900000000
+def nameMarker : Nat := 800000000
+
+/-- `generate_rule` exactly as emitted (one function per rule; `skip` and rule calls symbolic). -/
+def genRuleSym (names : List String) (id : Nat) (r : ORule) : Prog :=
+  let callP := fun (n : String) =>
+    match names.findIdx? (· = n) with
+    | some i => Prog.call (nameMarker + i)
+    | none => Prog.call (nameMarker + names.length)
+  let fuel := osize r.expr + 1
+  let sym := fun (atomicGen : Bool) => genExprWith (.call skipMarker) callP atomicGen fuel r.expr
+  let body : Prog :=
+    if r.ty = .atomic ∨ r.ty = .compound then sym true
+    else if isWsCm r.name then .atomic .atomic (sym true)
+    else sym false
+  match r.ty with
+  | .normal => .rule id body
+  | .silent => body
+  | .atomic => .rule id (.atomic .atomic body)
+  | .compound => .atomic .compound (.rule id body)
+  | .nonAtomic => .atomic .nonAtomic (.rule id body)
+
+/-- all rule names referenced by an expression. -/
+def identsOf : OExpr → List String
+  | .ident n => [n]
+  | .posPred e | .negPred e | .opt e | .rep e | .repOnce e | .push e | .nodeTag e _ | .restoreOnErr e => identsOf e
+  | .seq a b | .choice a b => identsOf a ++ identsOf b
+  | _ => []
+
+/-- the grammar's rule names followed by the other (built-in) names it refers to. -/
+def symbolNames (rules : List ORule) : List String :=
+  let own := rules.map (·.name)
+  own ++ ((rules.flatMap fun r => identsOf r.expr).filter (fun n => !own.contains n)).eraseDups
 
 def contexts : List Atomicity := [.nonAtomic, .atomic, .compound]
 
